@@ -18,10 +18,11 @@ open CaddyModel.C15
 #print axioms header_untouched_unless_init
 #print axioms close_untouched_unless_init
 #print axioms informational_forwarded
-#print axioms status_preserved_partial
+#print axioms status_preserved
 #print axioms etag_distinct
 #print axioms etag_recognised
 #print axioms weak_inm_untouched
-#print axioms transparent_full_fails
-#print axioms status_full_fails
+#print axioms old_code_mixes_streams
+#print axioms transparent_old_code_fails
+#print axioms status_old_code_fails
 #print axioms no101_hypothesis_is_needed
